@@ -38,6 +38,7 @@ class Ctx:
         self.varsh = {}
         self.timeout = P_TIMEOUT_MS
         self.feas_timeout = 10000
+        self.assume_pos_sqrt = False
         self.skip_unknown = False   # harness option: do not explore branches whose feasibility z3 cannot decide
         self.deadline = None      # wall-clock budget of the current configuration
         self.reset_path()
@@ -55,6 +56,7 @@ class Ctx:
         self.choices = []     # [(value, n)]
         self.n = 0
         self.axioms = []      # lazily instantiated axioms about UF atoms (z3 bools)
+        self.assumed_ids = {}     # ast id of a condition that literally is a recorded assumption -> its value
         self.sqrt_args = {}       # z3 id of a sqrt atom -> its argument R
         self.on_shadow = True     # every decision so far agreed with the float shadow point
         self.closed_ids = set()   # atoms of constant arguments (sqrt(2), ...)
@@ -224,6 +226,8 @@ def decide(t, sh=None):
     tid = t.get_id()
     if tid in C.decided:
         return C.decided[tid]
+    if tid in C.assumed_ids:
+        return C.assumed_ids[tid]
     k = len(C.path)
     if k < len(C.prefix):
         v = C.prefix[k]
@@ -849,6 +853,18 @@ def make_atom(kind, arg):
         C.closed_ids.add(a.get_id())
     if kind == 'sqrt':
         C.sqrt_args[a.get_id()] = arg
+        if C.assume_pos_sqrt and arg.c is None:
+            # harness-declared domain restriction (DESIGN 3.3): every norm / variance the code takes a square
+            # root of is positive.  Recorded as an assumption; branch conditions that literally are this
+            # assumption (or its negation) are then decided without the solver.
+            if arg.sh is not None and not arg.sh > 0:
+                raise Infeasible('shadow point violates the positive-norm assumption')
+            tpos = arg.t > 0
+            C.assume.append(tpos)
+            C.assumed_ids[z3.simplify(tpos).get_id()] = True
+            C.assumed_ids[z3.simplify(arg.t <= 0).get_id()] = False
+            C.assumed_ids[z3.simplify(arg.t == 0).get_id()] = False
+            C.assumed_ids[z3.simplify(arg.t != 0).get_id()] = True
     C.atoms.append((kind, arg, atom))
     C.stats['atoms'] += 1
     d = ATOM_DEFS[kind](a, arg)
